@@ -894,6 +894,18 @@ func canReachFrom(f *ssa.Function, from ssa.Instruction, viaBlock *ssa.BasicBloc
 					}
 				}
 			}
+			if track && ci.liveSel != nil {
+				// records that can no longer be consulted from s on (see corrInfo.liveness)
+				ls := ci.liveSel[s]
+				for j := range ci.tphis {
+					if nf.sel[j] != 0 && ls&(1<<uint(j)) == 0 {
+						nf.sel[j] = 0
+					}
+				}
+				if dead := ci.valMask &^ ci.liveVal[s]; dead != 0 && nf.bits != 0 {
+					nf.bits = corrClear(nf.bits, dead)
+				}
+			}
 			if !visited[vkey{s, nf}] {
 				visited[vkey{s, nf}] = true
 				work = append(work, start{b: s, facts: nf})
